@@ -73,9 +73,16 @@ type Macro struct {
 	Body   Expr
 }
 
+type Lemma struct {
+	Name   string
+	C      Clause
+	Reveal map[string]bool
+}
+
 type ContractSet struct {
 	Funcs  map[string]*FuncContract
 	Macros map[string]*Macro
+	Lemmas []*Lemma
 }
 
 var clauseKeywords = map[string]bool{"cut": true, "label": true, "requires": true, "ensures": true, "let": true, "split": true, "modifies": true,
@@ -134,6 +141,28 @@ func LoadContracts(files []string) (*ContractSet, error) {
 				}
 				m.Body = e
 				cs.Macros[m.Name] = m
+				cur = nil
+				continue
+			}
+			if kw == "lemma" {
+				// lemma name [reveal a b] : expr
+				i := strings.Index(rest, ":")
+				if i < 0 {
+					return nil, fmt.Errorf("%s: lemma needs 'name : expr'", pos)
+				}
+				hdr := strings.Fields(rest[:i])
+				lm := &Lemma{Name: hdr[0], Reveal: map[string]bool{}}
+				for _, w := range hdr[1:] {
+					if w != "reveal" {
+						lm.Reveal[w] = true
+					}
+				}
+				e, err := ParseExpr(rest[i+1:])
+				if err != nil {
+					return nil, fmt.Errorf("%s: %v", pos, err)
+				}
+				lm.C = Clause{Label: lm.Name, E: e, Src: strings.TrimSpace(rest[i+1:]), Pos: pos}
+				cs.Lemmas = append(cs.Lemmas, lm)
 				cur = nil
 				continue
 			}
@@ -443,6 +472,7 @@ type ESel struct {
 type EQuant struct {
 	All      bool
 	Var      string
+	VarSeq   bool // bound variable ranges over sequences
 	Lo, Hi   Expr // literal range (inclusive) when Bounded
 	Bounded  bool
 	Body     Expr
@@ -693,6 +723,13 @@ func (p *parser) primary() (Expr, error) {
 				return nil, fmt.Errorf("expected bound variable")
 			}
 			q := EQuant{All: t.s == "forall", Var: v.s}
+			if p.isOp(":") {
+				p.next()
+				st := p.next()
+				if st.s == "seq" {
+					q.VarSeq = true
+				}
+			}
 			if p.peek().k == "id" && p.peek().s == "in" {
 				p.next()
 				lo, err := p.expr(7)
